@@ -1,4 +1,5 @@
 import MsqProofs.Lemmas.LexLinkSelectMirror
+import MsqProofs.Lemmas.LexLinkSelectHive
 import MsqProofs.Props.C03T
 import MsqProofs.Props.C01T
 /-!
@@ -22,8 +23,9 @@ names printed back-quoted verbatim, literal payloads the lexer reads back as one
 plain names and no word of the keyword table (`aliasLex`: exactly the hypothesis of `TS.aliasOK_of_plain`); table names free of
 back-quotes and of TAB / CR / U+3000 (`nameLex`: true of every plain name).  LIMIT arguments need nothing beyond `FragS`
 (`0 ≤ n`: their decimal text is a digit string, `LexLink.toString_nonneg`).  The dialect pre-pass as in `C01T.lean`: the
-identity for five dialects (`C01.dialectPre_id`); for HIVE and DB2 the hypothesis `PM.dialectPre d text = text` (whole-text
-replacements `==` → `=` resp. `CURRENT DATE` …, findings F-C06-1/2).
+identity for five dialects (`C01.dialectPre_id`); for HIVE it holds whenever no column name, literal payload or table name
+contains `==` (`C03.hive_pre_select`: the printer itself never writes `==`); for DB2 the hypothesis
+`PM.dialectPre d text = text` (whole-text replacement of `CURRENT DATE` …, finding F-C06-1).
 -/
 set_option linter.unusedVariables false
 set_option linter.unusedSimpArgs false
@@ -73,6 +75,10 @@ theorem tselect_text (d : Gen.D) (s : Select) (hs : FragS d s = true) (hl : Leaf
   simp only [hne, Bool.false_eq_true, if_false, hp2, List.nil_append, moveStr_nil]
   rw [statementsLoop]
   simp
+
+/-- for HIVE the pre-pass hypothesis holds whenever no column name, literal payload or table name contains `==` -/
+theorem hive_pre_select (s : Select) (hs : FragS .HIVE s = true) (hl : LeafS .HIVE s) (hq : noEqEqS s) :
+    dialectPre .HIVE (prSL .HIVE s) = prSL .HIVE s := LexLink.hive_pre_select s hs hl hq
 
 end C03
 
@@ -193,5 +199,22 @@ example : ∃ str ts, PR.prS .ORACLE s2 = .ok str ∧ Lex.lex Gen.cfgS (dialectP
     pSingle .ORACLE (fuelFor ts) [] ts = .ok (s2, []) ∧ (∀ s', pSingle .ORACLE (fuelFor ts) [] ts = .ok (s', []) → PR.prS .ORACLE s' = .ok str) :=
   C01.select_round_trip_text .ORACLE s2 (by decide) (leafS_of_B _ _ (by decide +kernel))
     (C01.dialectPre_id _ (by decide) (by decide) _)
+
+/-- an instance for HIVE: the pre-pass hypothesis is discharged by `hive_pre_select` -/
+example : ∃ str ts, PR.prS .HIVE s2 = .ok str ∧ Lex.lex Gen.cfgS (dialectPre .HIVE str.toList) = .ok ts ∧
+    pSingle .HIVE (fuelFor ts) [] ts = .ok (s2, []) ∧ pStatement .HIVE (fuelFor ts) ts = .ok (.select (.single s2), []) ∧
+    parseStatementsText .HIVE str.toList = .ok [.select (.single s2)] :=
+  tselect_text .HIVE s2 (by decide) (leafS_of_B _ _ (by decide +kernel))
+    (hive_pre_select s2 (by decide) (leafS_of_B _ _ (by decide +kernel)) (by
+      show (∀ c ∈ [(lit "1", (none : Option String))], C01.noEqEq c.1) ∧ (∀ l, (none : Option (List FromTable)) = some l → _) ∧
+        (∀ j ∈ ([] : List Join), _) ∧ True ∧ True ∧ True ∧ True
+      refine ⟨?_, ?_, ?_, trivial, trivial, trivial, trivial⟩
+      · intro c hc
+        simp only [List.mem_singleton] at hc
+        subst hc
+        show C01.occ "1".toList = false
+        decide
+      · intro l h; cases h
+      · intro j h; cases h))
 
 end C03
